@@ -37,6 +37,16 @@ structure SolverSpec (lm : LinModel (Ext K)) (out : MlpOutcome (Ext K)) : Prop w
     LinOptimal lm (assignmentOf sol) ∧ ∃ w, sol.value = .fin w ∧ linObjective lm (assignmentOf sol) = some w
   infeasible : wrapAuto lm out = .err "Infeasible" → LinInfeasible lm
 
+/-- the same contract on ANY answer `res` handed back for `lm` (`SolverSpec lm out` is `AnswerSpec lm (wrapAuto lm out)`);
+for rooc's own simplex it is proved (`ComposeReturn.simplex_answerSpec`), for the external solvers it is the assumption. -/
+structure AnswerSpec (lm : LinModel (Ext K)) (res : Res (Ext K)) : Prop where
+  optimal : ∀ sol, res = .ok sol → sol.status = .optimal →
+    LinOptimal lm (assignmentOf sol) ∧ ∃ w, sol.value = .fin w ∧ linObjective lm (assignmentOf sol) = some w
+  infeasible : res = .err "Infeasible" → LinInfeasible lm
+
+theorem SolverSpec.answerSpec {lm : LinModel (Ext K)} {out : MlpOutcome (Ext K)} (h : SolverSpec lm out) :
+    AnswerSpec lm (wrapAuto lm out) := ⟨h.optimal, h.infeasible⟩
+
 /-- the one-shot pipeline on a source model, the external solver being the function `solver`. -/
 noncomputable def oneShot (solver : LinModel (Ext K) → MlpOutcome (Ext K)) (m : Model (Ext K)) (t : K) (maxSteps : Nat) :
     Res (Ext K) :=
